@@ -111,6 +111,13 @@ pub fn run() -> Report {
             let s = c.start.unwrap_or(0);
             let e = c.end.map(|e| e.min(tip)).unwrap_or(tip);
             let mut spec = RunSpec::new("bitcoin", c.cb).range(c.start, c.end);
+            // time is an environment answer: every fourth case runs on a virtual monotonic clock that advances 4 s per query
+            // (the driver's "every 10 seconds" status branch is crossed every few blocks), every fourth on one that stands still
+            match i % 4 {
+                2 => spec.env.push(("VERIF_CLOCK_STEP".into(), "4000000000".into())),
+                3 => spec.env.push(("VERIF_CLOCK_STEP".into(), "0".into())),
+                _ => {}
+            }
             if c.n >= 10_000 {
                 spec.env.push(("VERIF_RUN_TIMEOUT".into(), "600".into()));
             }
